@@ -224,6 +224,15 @@ func roundRef(x float64, p int) []float64 {
 	}
 	d := new(big.Rat).Sub(frac, half)
 	tie := new(big.Rat).Abs(d).Cmp(eps) <= 0
+	if d.Sign() == 0 {
+		// an exact tie (x*10^p = k + 1/2 exactly): rounding goes away from zero, as math.Round does
+		tie = false
+		if xs.Sign() < 0 {
+			d = big.NewRat(-1, 1) // floor is the one further from zero
+		} else {
+			d = big.NewRat(1, 1)
+		}
+	}
 	var ks []*big.Int
 	switch {
 	case tie:
